@@ -157,7 +157,7 @@ func GenStream(r *payload.SplitMix, max int) Stream {
 			mid++
 		case act == 8: // new stream
 			sid += uint64(1 + r.Intn(3))
-			mid = uint64(1 + r.Intn(2))
+			mid = uint64(r.Intn(3)) // message id 0 is an ordinary id on every stream after the first
 			desc = append(desc, fmt.Sprintf("newstream(s%d)", sid))
 		case act == 9: // unfinished packet then a higher id (discard)
 			c1, c2 := r.Intn(2) == 0, r.Intn(3) == 0
